@@ -10,6 +10,7 @@ type Focus struct {
 	Kinds      []string
 	NeedTO     bool // timeout > 0
 	ReadyOnly  bool // consumer always ready
+	ReadyMost  bool // consumer always ready in about two thirds of the scripts
 	Stop       bool // v1 stop/cancel plan present
 	HoldHeavy  bool // consumers that keep slices
 	NoTimeouts bool
@@ -134,6 +135,9 @@ func Gen(f Focus, thorough bool) *rapid.Generator[Script] {
 			s.CloseGap = pick(t, "cg1", 3*T, 5*T+1)
 		}
 		ready := f.ReadyOnly || rapid.IntRange(0, 9).Draw(t, "ready") < 4
+		if f.ReadyMost {
+			ready = rapid.IntRange(0, 2).Draw(t, "readymost") != 0
+		}
 		if f.HoldHeavy {
 			ready = rapid.IntRange(0, 9).Draw(t, "ready2") < 1
 		}
